@@ -41,7 +41,23 @@ def main():
         caught += bool(c)
         needs = re.sub(r"\s+", " ", str(meta.get("summary") or meta.get("needs") or ""))[:150].replace("|", "/")
         out.append("| %s | %s | %s | %s |" % (name, needs, ", ".join(c) or "-", ", ".join(ms) or "-"))
-    out += ["", "%d of %d seeded changes are caught by at least one listed check in the quick tier." % (caught, n), "", E]
+    out += ["", "%d of %d seeded changes are caught by at least one listed check in the quick tier." % (caught, n), ""]
+    out += ["### 10.3 What the quick tier observed on the unchanged tree (from `evidence/*.json` at the time of writing)", "",
+            "| check | evaluations | distinct non-trivial | wall s | shards | deciding monitors (count) |", "|---|---|---|---|---|---|"]
+    import glob
+    import importlib, sys
+    sys.path[:0] = [VERIF, os.path.join(VERIF, ".deps"), "/repo"]
+    for f in sorted(glob.glob(os.path.join(VERIF, "evidence", "C*.json"))):
+        ev = json.load(open(f))
+        c = ev["coverage"]
+        try:
+            req = importlib.import_module("gvmon.checks.%s" % ev["property_id"]).REQUIRED
+        except Exception:
+            req = list(c.get("monitors", {}))[:6]
+        mons = "; ".join("%s=%s" % (k, c["monitors"].get(k)) for k in req[:7])
+        out.append("| %s (%s) | %d | %d | %.0f | %s | %s |" % (ev["property_id"], ev["tier"], c["evaluations"], c["distinct_nontrivial"],
+                                                             ev["wall_s"], c.get("shards"), mons.replace("|", "/")))
+    out += ["", E]
     p = os.path.join(VERIF, "DESIGN.md")
     s = open(p).read()
     block = "\n".join(out)
